@@ -1,10 +1,13 @@
 #!/bin/bash
 # try_seeded.sh <prop> <patch>: apply a seeded change to /repo, run the property's quick
-# check, undo the change.  Prints the check's output and exit code.
+# check, undo the change.  Prints the check's output and exit code.  The evidence file of
+# the property is saved and put back: evidence must come from the unchanged tree only.
 P=$1; PATCH=$2
 cd /repo || exit 2
 git diff --quiet || { echo "/repo has uncommitted changes"; exit 2; }
 git apply $PATCH || { echo "patch does not apply"; exit 2; }
+cp /verif/evidence/$P.json /tmp/evidence_$P.keep 2>/dev/null
 cd /verif && timeout 1800 ./check $P --tier quick; RC=$?
+cp /tmp/evidence_$P.keep /verif/evidence/$P.json 2>/dev/null
 cd /repo && git checkout -- . 
 echo "check_rc=$RC"
